@@ -165,7 +165,8 @@ def run(prog: Program, rep: Report, tier: str):
                 if not needed:
                     continue
                 exposed, _ = sa.summarize(C, entry, m, needed, assume)
-                o = rep.decide(not exposed, "G3.inject-before-apply", entry.module, f"entry:{name}->{m}",
+                o = rep.decide(None if (exposed and getattr(sa, "summary_undecided", False)) else not exposed,
+                               "G3.inject-before-apply", entry.module, f"entry:{name}->{m}",
                                f"every application of {m} reachable from {name} (through helpers on self) is preceded by the "
                                f"injection of the per-sample generator",
                                "; ".join(f"{m} is applied in {fn} (line {ln}) on a path from {name} on which no per-sample "
